@@ -103,7 +103,7 @@ class SqliteStorage(Storage):
     def read(self, tag: str, eid: Any) -> Optional[bytes]:
         db_cursor = self.__db_execute('SELECT serialization FROM cloud WHERE id = ? and tag = ?', [eid, tag])
         for row in db_cursor.fetchall():
-            return row
+            return row[0]
         return None
 
 
